@@ -71,4 +71,35 @@ CHECKS = {
          "design_ref": "DESIGN.md section 6 C18", "note": _NOTE + " cad_correction (OSQP) is off: OSQP.setup() fails in this sandbox as in the 13 pre-existing test failures. "
                  "Four genuine defects are recorded as known findings (K-C18-1..4).",
          "technique": "runtime monitoring: output invariants + hook on normalize + dense re-solve oracle + renumbering metamorphic monitor"},
+ "C04": {"text": "Differential monitor with seven independent reference codecs (obj, medit, geogram_ascii, off, tet, xyz, stl): for generated meshes of every "
+                 "kind and hostile coordinates, (1) load(save(m)) must equal the projection of m on the format's vocabulary, (2) the bytes mouette writes are "
+                 "parsed by the strict reference reader, (3) files produced by reference writers in several dialects must load as the projection, (4) geogram "
+                 "attributes must come back with name, type, arity and values; a native crash of the worker is attributed to the running case.",
+         "design_ref": "DESIGN.md section 6 C04", "note": _NOTE + " The reference codecs were written from the format descriptions (geogram's from knowledge of its writer).",
+         "technique": "runtime monitoring: round-trip / cross-reader differential oracle with independent codecs, crash isolation per case"},
+ "C05": {"text": "History monitor run in lock-step on a sparse and a dense attribute of the same declaration and on a dict model: random and bounded-exhaustive "
+                 "histories of create/set/get/in-place update/append/extend/clear/as_array/delete over the five value types; after every step both storages "
+                 "and the model must answer the same for every index, accept and reject the same values, keep other entries isolated from in-place updates, "
+                 "report out-of-bounds, and stay aligned with the container.",
+         "design_ref": "DESIGN.md section 6 C05", "note": _NOTE, "technique": "runtime monitoring: lock-step history vs sequential dict model (random + bounded-exhaustive)"},
+ "C11": {"text": "Hook + reference monitor: KDTree._split_points is wrapped to count logical steps and detect state recurrence (non-termination is decided in "
+                 "logical steps, never wall-clock); built trees are checked structurally (leaves partition the points, points inside their boxes); k-nearest and "
+                 "radius queries are compared with brute force with tie bands, on uniform / clustered / collinear / lattice / duplicate point sets incl. an "
+                 "adversarial family for premature pruning.",
+         "design_ref": "DESIGN.md section 6 C11", "note": _NOTE, "technique": "runtime monitoring: logical-step hook on a private method + brute-force reference oracle"},
+ "C12": {"text": "Contract + sentinel monitor: icontract postconditions and direct algebraic laws on the real AABB / vector / angle primitives (exact rational "
+                 "arithmetic for cross products and determinants), and a side-effect sentinel around every call of generated call sequences (including raising "
+                 "calls, from several initial numpy error configurations) comparing fingerprints of argument arrays, bystander boxes / meshes and numpy.geterr().",
+         "design_ref": "DESIGN.md section 6 C12", "note": _NOTE, "technique": "runtime monitoring: icontract contracts on the real functions + side-effect sentinel over call histories"},
+ "C14": {"text": "Reference-analyser monitor: every procedural generator is called over admissible resolutions (unequal pairs in both orders), radii, centres and "
+                 "switch combinations; the result is judged by the independent topology analyser (indices, unused vertices, repeated faces, manifoldness, "
+                 "orientation, Euler characteristic, border loops), documented element counts, geometry (radius, unit square, corners, ring defect) and switches.",
+         "design_ref": "DESIGN.md section 6 C14", "note": _NOTE + " One genuine defect is recorded as a known finding (K-C14-1, unit_triangle with unequal arguments).",
+         "technique": "runtime monitoring: reference analyser + documented-count / geometry oracles over the parameter space"},
+ "C19": {"text": "Domain + reference monitor: every sampler is run over boxes of dimension 1-5, radii below and above 1, both modes, polylines and zoo surfaces; "
+                 "counts, membership in the domain, face normals and a 6-sigma binomial band on per-edge / per-face shares are checked; Bezier curves and patches "
+                 "are compared with the Bernstein sum in exact arithmetic, end / corner interpolation, convex hull (LP), rejection of parameters outside [0,1] and "
+                 "grid consistency of the polyline / surface exports for unequal sample counts.",
+         "design_ref": "DESIGN.md section 6 C19", "note": _NOTE + " The distribution clause is statistical: false-alarm probability < 1e-6 per run (stated in the evidence).",
+         "technique": "runtime monitoring: domain-membership oracle + statistical acceptance band + exact Bernstein reference"},
 }
